@@ -24,7 +24,8 @@ EXPLANATION = (
     'helper. R12.6: the directory bookkeeping is seeded with the old '
     'cache\'s directories and files plus the cache file; reused subtrees '
     're-register the directories of every nested output. Exactness of the '
-    'created-directory set after arbitrary histories is not decided.')
+    'created-directory set after arbitrary histories is not decided.'
+    ' R12.3b: files and the cache file are removed before directories. R12.4b: createdDirs is written from and read into one field and every registered operation reaches the cache file (R16.2, R16.5, R16.6). R12.7: a concurrently created directory keeps an owner (R9.6).')
 
 
 def _clean(ctx):
